@@ -130,6 +130,17 @@ CLAIMS = {
         note='trusted: as C09, plus tr_handlers.py and its independent reading of trace.codes (compared with '
              'default_trace_codes() each run)', technique='Coq proof (finite sweeps over generated tables, lifted) + correspondence',
         ref='DESIGN.md §5 C17'),
+    'C11': dict(
+        text='Coq theorems over the regenerated enum tables and serializers: c11_values (13 families equal the Darwin reference '
+             'values), c11_sound / c11_complete / c11_single_bit / c11_order_once (for EVERY word: names shown <-> declared bits '
+             'set, once, in declaration order), c11_stat_shown(_only) and c11_open_flags_shape/complete (multi-bit fields), '
+             'c11_ioctl_inverse (exact inverse of _IOC for all directions, groups, numbers, 13-bit lengths), c11_ioctl_row, '
+             'c11_ioctl_total; closed under the global context. Correspondence: every serializer on structured words, ioctl '
+             'words packed with _IOC, and the iteration order of EVERY enum class against the interpreter.',
+        note='partial: reference values for 13 families (theories/Darwin.v, written from the XNU headers); other enums are proved '
+             'against the tool\'s own table. trusted: Coq kernel+vm_compute, tr_decoders.py, DecoderDSL.lnames, the enum '
+             'iteration rule (validated for every class each run)',
+        technique='Coq proof over generated enum/serializer tables + correspondence', ref='DESIGN.md §5 C11'),
     'C12': dict(
         text='Coq theorems c12_events/sat_meaning/logs/no_logs_in_events/no_events_in_logs: for EVERY stream and EVERY '
              'configuration the filtered listings equal `filter` of the unfiltered listing by the stated predicate (order and '
